@@ -2,6 +2,7 @@
    model the C20 theorems speak about is compared with the Go functions on every run. -/
 import Driver.Util
 import Mxj.Model.Wrapper
+import Mxj.Model.WrapperValue
 namespace Mxj.Drv
 open Mxj Mxj.Proto
 
@@ -19,5 +20,35 @@ def opWat : P Out := do
 def opWpfk : P Out := do
   let m ← pVal; let key ← pStr; pEnd
   pure ("ok " ++ showStrs (pathsForKey m key))
+
+def wErrKind : Wrapper.WErr → String
+  | .noKeysBeyond => "noKeysBeyond" | .noKeyInMap => "noKeyInMap"
+  | .noListMember => "noListMember" | .noAttrName => "noAttrName" | .noAttrPair => "noAttrPair"
+  | .noAttrMatch => "noAttrMatch" | .badAttrPair => "badAttrPair"
+
+/-- `wmval m path attr` → `ok <x2j-wrapper.MapValue(m, path, attr)>` or `err <kind>`; `attr` is a
+    map, or `n` for the nil map -/
+def opWmval : P Out := do
+  let m ← pVal; let path ← pStr; let a ← pVal; pEnd
+  let attr ← match a with
+    | .null => pure none
+    | .map kvs => pure (some kvs)
+    | _ => throw .bad
+  pure (match Wrapper.mapValue m path attr with
+    | .ok v => "ok " ++ showVal v
+    | .error e => "err " ++ wErrKind e)
+
+/-- `wvfk m key` → `ok <x2j-wrapper.ValuesForKey(m, key)>` -/
+def opWvfk : P Out := do
+  let m ← pVal; let key ← pStr; pEnd
+  pure ("ok " ++ showList (Wrapper.wValuesForKey m key))
+
+/-- `wattr kv` → `ok <x2j-wrapper.NewAttributeMap(kv...)>` (`n` for nil) or `err badAttrPair` -/
+def opWattr : P Out := do
+  let kv ← pStrList; pEnd
+  pure (match Wrapper.newAttributeMap kv with
+    | .ok none => "ok n"
+    | .ok (some a) => "ok " ++ showVal (.map a)
+    | .error e => "err " ++ wErrKind e)
 
 end Mxj.Drv
